@@ -11,6 +11,7 @@
 mod ast;
 mod c18;
 mod cmp;
+mod date;
 mod filter;
 mod history;
 mod pool;
@@ -48,6 +49,9 @@ pub fn dispatch(rec: &J) -> Outcome {
     }
     if kind == "mathcase" || kind == "bigcheck" {
         return Outcome::ok(true); // evaluated by the trace stage (binding B)
+    }
+    if kind == "date" {
+        return date::run(rec);
     }
     if kind == "cmp" {
         return cmp::run(rec);
